@@ -95,42 +95,45 @@ def startBwd (s : WS) (pos : Nat) (big : Bool) : Nat :=
             | some (p2, k2) =>
               match findDown (fun i => s.otherOrWs i (s.c p2)) k2 with
               | none => 0
-              | some w => if w = 0 then 0 else w + 1)
+              | some w => w + 1)   -- fix 12116d5: a boundary found at index 0 is a boundary
           (if s.ws p1 then (findDown (fun i => !s.ws i) k1).map (fun j => (j, j)) else some (p1, k1)))
         (if onB then pos - 1 else pos) (if onB then pos - 1 else pos))
       (pos > 0 && !s.ws pos && s.otherOrWs (pos - 1) (s.c pos))
 
-/-- `end_of_word_backward(pos, word, false)` (ge / gE). Its "not found" value is the text length. -/
+/-- `end_of_word_backward(pos, word, false)` (ge / gE). Its "not found" value is the start of the text
+(fix 7be5856; it used to be the text length). -/
 def endBwd (s : WS) (pos : Nat) (big : Bool) : Nat :=
   if big then
-    if pos = 0 then s.len
+    if pos = 0 then 0
     else
       (fun (onB : Bool) =>
         (fun (p1 k1 : Nat) =>
-          if p1 ≥ s.len then s.len
-          else if s.ws p1 then (findDown (fun i => !s.ws i) k1).getD s.len
+          if p1 ≥ s.len then 0
+          else if s.ws p1 then (findDown (fun i => !s.ws i) k1).getD 0
           else match findDown (fun i => s.ws i) k1 with
-            | none => s.len
-            | some w => (findDown (fun i => !s.ws i) w).getD s.len)
+            | none => 0
+            | some w => (findDown (fun i => !s.ws i) w).getD 0)
         (if onB then pos - 1 else pos) (if onB then pos - 1 else pos))
       (s.ws (pos - 1))
   else
-    if pos ≥ s.len then s.len
-    else if pos = 0 then s.len
+    if pos ≥ s.len then 0
+    else if pos = 0 then 0
     else
       (fun (onB : Bool) =>
         (fun (p1 : Nat) =>
           if !(s.ws pos) && !(s.ws p1) && s.c pos != s.c p1 then p1
           else if !s.ws pos then
             match findDown (fun i => s.otherOrWs i (s.c p1)) pos with
-            | none => s.len
-            | some o => if !s.ws o then o else (findDown (fun i => !s.ws i) o).getD s.len
-          else (findDown (fun i => !s.ws i) pos).getD s.len)
+            | none => 0
+            | some o => if !s.ws o then o else (findDown (fun i => !s.ws i) o).getD 0
+          else (findDown (fun i => !s.ws i) pos).getD 0)
         (if onB then pos - 1 else pos))
       (!s.ws pos && s.otherOrWs (pos - 1) (s.c pos))
 
 inductive WKind where | startFwd | endFwd | startBwd | endBwd
   deriving Repr, BEq, DecidableEq
+
+def WKind.backward : WKind → Bool | .startBwd => true | .endBwd => true | _ => false
 
 /-- `dispatch_word_motion` (normal mode: no insert-mode start position): the scan repeated `count` times,
 each result clamped to the text; `include_last_char` only on the last round. -/
@@ -146,31 +149,64 @@ def dispatchWord (s : WS) (k : WKind) (big incl : Bool) : Nat → Nat → Nat
 /-- The `WordMotion` arm of `eval_motion`: `change` = the verb is `c` (`cw` keeps the trailing blank);
 `selecting` matters for `ge` only (fix 2e48913). -/
 def evalWord (s : WS) (cur : Nat) (k : WKind) (big : Bool) (count : Nat) (change : Bool) (selecting : Bool := false) : MK :=
+  -- `b`, `B`, `ge`, `gE` with the cursor on the first grapheme of the buffer fail (fix 7be5856)
+  if k.backward && cur == 0 then .null
+  else
   (fun pos => match k with
     | .endFwd => MK.onto pos
     | .endBwd => if selecting then MK.on pos else MK.inclusive (ordered cur pos).1 (ordered cur pos).2
     | _ => MK.on pos)
   (min (dispatchWord s k big (change && k == .startFwd) count cur) s.len)
 
-/-- `is_word_bound(pos, word, dir)` -/
-def isWordBound (s : WS) (pos : Nat) (big fwd : Bool) : Bool :=
-  if s.len = 0 then false
-  else
-    (fun cp =>
-      (fun other =>
-        if other = cp then true
-        else if big then s.ws other else s.otherOrWs other (s.c cp))
-      (if fwd then min (cp + 1) (s.len - 1) else cp - 1))
-    (min pos (s.len - 1))
+/-- `word_char_kind(idx, word)`: the class of the grapheme (for `W`-words every non-blank is one class),
+`none` at a line terminator (class 4 in the input) and past the end: words do not run across lines. -/
+def wkind (s : WS) (big : Bool) (i : Nat) : Option Nat :=
+  match s.cls[i]? with
+  | none => none
+  | some c => if c == 4 then none else if big && c != 1 then some 3 else some c
 
-/-- `text_obj_word` (iw / aw / iW / aW — inside and around are the same code): the raw (start, end). -/
-def textObjWord (s : WS) (cur : Nat) (big : Bool) : Nat × Nat :=
-  (if isWordBound s cur big false then cur else startBwd s cur big,
-   if isWordBound s cur big true then cur else endFwd s cur big)
+/-- start of the run of kind `k` that ends just before index `i` -/
+def runStart (s : WS) (big : Bool) (k : Nat) : Nat → Nat
+  | 0 => 0
+  | i + 1 => if wkind s big i == some k then runStart s big k i else i + 1
+
+/-- end of the run of kind `k` that contains `e` (fuel = graphemes left) -/
+def runEnd (s : WS) (big : Bool) (k : Nat) : Nat → Nat → Nat
+  | 0, e => e
+  | f + 1, e => if wkind s big (e + 1) == some k then runEnd s big k f (e + 1) else e
+
+/-- `word_run(pos, word)`: the run of graphemes of one kind around `pos`, both ends included. -/
+def wordRun (s : WS) (big : Bool) (pos : Nat) : Option (Nat × Nat) :=
+  match wkind s big pos with
+  | none => none
+  | some k => some (runStart s big k pos, runEnd s big k (s.len - pos) pos)
+
+/-- `text_obj_word` (rewritten in fix 12116d5): `iw` is the run under the cursor; `aw` adds the blanks after
+it, or the blanks before it when none follow (but not the indent of the line); on blanks, the blanks and
+the word after them. Both ends are included; `none` on an empty line. -/
+def textObjWord (s : WS) (cur : Nat) (big around : Bool) : Option (Nat × Nat) :=
+  match wordRun s big cur with
+  | none => none
+  | some (st, en) =>
+    if !around then some (st, en)
+    else if wkind s big cur == some 1 then
+      match wordRun s big (en + 1) with
+      | none => none
+      | some (_, e2) => some (st, e2)
+    else if wkind s big (en + 1) == some 1 then
+      match wordRun s big (en + 1) with
+      | none => some (st, en)
+      | some (_, e2) => some (st, e2)
+    else if st > 0 && wkind s big (st - 1) == some 1 then
+      match wordRun s big (st - 1) with
+      | none => some (st, en)
+      | some (rs, _) => if rs > 0 && s.cls[rs - 1]? != some 4 then some (rs, en) else some (st, en)
+    else some (st, en)
 
 /-- The `TextObj::Word` arm of `eval_motion`. -/
 def evalTextObjWord (s : WS) (cur : Nat) (big around : Bool) : MK :=
-  if around then .exclusive (textObjWord s cur big).1 (textObjWord s cur big).2
-  else .inclusive (textObjWord s cur big).1 (textObjWord s cur big).2
+  match textObjWord s cur big around with
+  | none => .null
+  | some (a, b) => .inclusive a b
 
 end Vicut
